@@ -16,6 +16,7 @@ import (
 	"fmt"
 	"io"
 	"net"
+	"strings"
 	"sync"
 	"testing"
 	"time"
@@ -151,6 +152,9 @@ type c18Ref struct {
 	Outcome  string // none | tcp | udp
 	Addr     string
 	Consumed int // offset of the first byte after the request
+	// Presented: the stream carries a complete, well-formed user/pass message; User/Pass are its fields
+	Presented  bool
+	User, Pass string
 }
 
 var c18Addrs = map[string]string{ // address field (hex, as on the wire after ATYP) -> host, from the RFC text formats
@@ -160,6 +164,11 @@ var c18Addrs = map[string]string{ // address field (hex, as on the wire after AT
 }
 
 func c18Reference(s []byte, authConfigured bool) c18Ref {
+	return c18ReferenceFor(s, authConfigured, "u", "p")
+}
+
+// c18ReferenceFor: the reference reader for a server whose AuthFunc accepts exactly (accU, accP).
+func c18ReferenceFor(s []byte, authConfigured bool, accU, accP string) c18Ref {
 	r := c18Ref{Outcome: "none"}
 	off := 0
 	need := func(n int) bool { return len(s)-off >= n }
@@ -229,7 +238,8 @@ func c18Reference(s []byte, authConfigured bool) c18Ref {
 		}
 		pass := string(s[off : off+pl])
 		off += pl
-		if user != "u" || pass != "p" {
+		r.User, r.Pass, r.Presented = user, pass, true
+		if user != accU || pass != accP {
 			r.Stage = "up-wrong"
 			return r
 		}
@@ -303,13 +313,27 @@ type c18Case struct {
 	// EOFLast: the client connection reports io.EOF in the same Read call that returns the last
 	// bytes of the stream (instead of a separate (0, io.EOF) afterwards)
 	EOFLast bool `json:"eof_with_last_bytes,omitempty"`
+	// AccU/AccP: the one pair AuthFunc accepts; empty = (u,p). Set by the long-credentials part.
+	AccU string `json:"accepted_user,omitempty"`
+	AccP string `json:"accepted_pass,omitempty"`
+	// askedOther (out): first AuthFunc call whose arguments are not the pair the stream carries
+	askedOther string
+}
+
+// accepted returns the pair the case's AuthFunc accepts.
+func (c *c18Case) accepted() (string, string) {
+	if c.AccU == "" && c.AccP == "" {
+		return "u", "p"
+	}
+	return c.AccU, c.AccP
 }
 
 var c18SuccessReply = []byte{5, 0, 0, 1, 0, 0, 0, 0, 0, 0}
 
 // c18Run runs one case on the real code; returns the violated clause id and a detail text.
 func c18Run(c *c18Case) (clause, detail string, ref c18Ref) {
-	ref = c18Reference(c.Stream, c.Auth)
+	accU, accP := c.accepted()
+	ref = c18ReferenceFor(c.Stream, c.Auth, accU, accP)
 	val, stack := evidence.Catch(func() { clause, detail = c18RunInner(c, ref) })
 	if val != nil {
 		return "panic", fmt.Sprintf("panic: %v at %s", val, evidence.PanicSite(stack)), ref
@@ -321,10 +345,18 @@ func c18RunInner(c *c18Case, ref c18Ref) (string, string) {
 	var log []c18Ev
 	hy := &c18Client{log: &log}
 	s := &Server{HyClient: hy, EventLogger: c18Logger{&log}}
+	acceptedOther := false // AuthFunc said yes to a pair that is not the one the stream carries
 	if c.Auth {
+		accU, accP := c.accepted()
 		s.AuthFunc = func(u, p string) bool {
-			ok := u == "u" && p == "p"
+			ok := u == accU && p == accP
 			log = append(log, c18Ev{Kind: "auth", A: u, B: p, OK: ok})
+			if ok && !(ref.Presented && u == ref.User && p == ref.Pass) {
+				acceptedOther = true
+			}
+			if !(ref.Presented && u == ref.User && p == ref.Pass) && c.askedOther == "" {
+				c.askedOther = fmt.Sprintf("AuthFunc was asked (%d-byte user %.12q.., %d-byte pass %.12q..), the stream carries (%d-byte user %.12q.., %d-byte pass %.12q..)", len(u), u, len(p), p, len(ref.User), ref.User, len(ref.Pass), ref.Pass)
+			}
 			return ok
 		}
 	}
@@ -334,6 +366,7 @@ func c18RunInner(c *c18Case, ref c18Ref) (string, string) {
 		s.dispatch(&c18Conn{data: warm})
 		log = nil
 		hy.peers = nil
+		c.askedOther, acceptedOther = "", false
 	}
 	conn := &c18Conn{data: append(make([]byte, 0, len(c.Stream)), c.Stream...), cuts: c.Cuts, zero: c.Zero, eofLast: c.EOFLast}
 	s.dispatch(conn) // returns when the connection is finished (relay ends at client EOF)
@@ -357,6 +390,11 @@ func c18RunInner(c *c18Case, ref c18Ref) (string, string) {
 	}
 	if c.Auth && !ref.Creds && len(ups) > 0 {
 		return "upstream-without-credentials", fmt.Sprintf("stream presents no acceptable credentials (%s) but events %v", ref.Stage, log)
+	}
+	if c.Auth && acceptedOther {
+		// the yes that opens the gate must be a yes to what THIS client presented (long-credentials part:
+		// the accepted pair and the presented pair differ only in the head of one field)
+		return "auth-accepted-unpresented", fmt.Sprintf("AuthFunc accepted a pair other than the one the stream carries: %s", c.askedOther)
 	}
 	if c.Auth && accepted && !ref.Creds {
 		return "auth-accepted-unpresented", fmt.Sprintf("AuthFunc accepted credentials the stream does not carry (%s): %v", ref.Stage, log)
@@ -832,10 +870,169 @@ func c18SocksEnumerate(sh *evidence.Shard) {
 		p4.Exhaustive = false
 		p4.Note("deadline reached inside the eof-with-last-bytes enumeration")
 	}
+
+	// (5) credential LENGTH: RFC 1929 allows ULEN and PLEN 1..255 each; the parts above hold both at
+	// 0/1. Here (ULEN, PLEN) ranges over boundary pairs around 127/128/255 and around ULEN+1+PLEN =
+	// 256 (a whole user/pass message behind its 2-byte head in one 256-byte buffer), the fields are
+	// two-segment strings whose segment boundary is the OTHER field's length (so a field whose head
+	// was replaced by the other field, or by a wrong filler, is in the alphabet), and the accepted
+	// pair and the presented pair range independently: right, wrong username sharing its TAIL with
+	// the right one + right password, right username + wrong password. Same reference reader
+	// (c18ReferenceFor with the accepted pair) and the same clauses: nothing reaches HyClient unless
+	// the stream carries exactly the accepted pair, and a yes of AuthFunc counts only if it was a yes
+	// to the pair the stream carries. (AuthFunc asked about a pair the stream does not carry and
+	// answering no is recorded as a note, not a violation.)
+	// Added after the independently seeded change C18-13 (negotiate() parses the user/pass message
+	// itself into one 256-byte scratch buffer; when ULEN+1+PLEN > 256 the password is read over the
+	// head of the username that still aliases the buffer, so AuthFunc is asked (password + tail of
+	// username, password) instead of what the client sent).
+	p5 := sh.Part("socks-long-credentials", "enum")
+	c18LongCredentials(x, p5, th, mine)
+	if expired {
+		p5.Exhaustive = false
+		p5.Note("deadline reached inside the long-credentials enumeration")
+	}
+}
+
+// ---- long credentials (part 5) -----------------------------------------------------------------
+
+var (
+	c18LongULens = []int{1, 100, 127, 128, 200, 254, 255}
+	c18LongPLens = []int{1, 55, 56, 100, 155, 156, 254, 255}
+)
+
+func c18Fill(b byte, n int) string { return string(bytes.Repeat([]byte{b}, n)) }
+
+// c18LongUsers: the username alphabet for one (ULEN, PLEN): m = min(ULEN, PLEN) head bytes, then 'u's.
+func c18LongUsers(ul, pl int) map[string]string {
+	m := min(ul, pl)
+	return map[string]string{
+		"u*":        c18Fill('u', ul),
+		"p^m.u*":    c18Fill('p', m) + c18Fill('u', ul-m), // begins with (a prefix of) the accepted password
+		"x^m.u*":    c18Fill('x', m) + c18Fill('u', ul-m), // wrong head, same tail
+		"u*.x-last": c18Fill('u', ul-1) + "x",             // wrong last byte
+	}
+}
+
+func c18LongCredentials(x *c18SocksRun, p *evidence.Part, th bool, mine func() bool) {
+	accUsers := []string{"u*", "p^m.u*"}
+	sentUsers := []string{"u*", "p^m.u*", "x^m.u*", "u*.x-last"}
+	sentPasses := []string{"p*", "y*", "p*.y-last"}
+	reqs := []struct {
+		name string
+		r    c18Req
+	}{
+		{"connect", c18Req{5, 1, 1, c18AddrForms[0].addr, 80}},
+		{"udp-associate", c18Req{5, 3, 1, c18AddrForms[0].addr, 80}},
+	}
+	p.Alphabet = map[string]any{
+		"negotiation":        "05 01 02",
+		"credential_lengths": fmt.Sprintf("ULEN %v x PLEN %v (ULEN+1+PLEN on both sides of 256)", c18LongULens, c18LongPLens),
+		"accepted_pair":      "user {u^ULEN, p^m.u^(ULEN-m)} (m = min(ULEN,PLEN)) : pass p^PLEN",
+		"presented_user":     "u^ULEN | p^m.u^(ULEN-m) | x^m.u^(ULEN-m) (wrong head, right tail) | u^(ULEN-1).x (wrong last byte)",
+		"presented_pass":     "p^PLEN | y^PLEN | p^(PLEN-1).y",
+		"request":            "CONNECT 1.2.3.4:80 | UDP ASSOCIATE, then the pipelined 05 02 'P'",
+		"delivery":           "whole stream in one read; one read per message (client waits for each answer) with and without zero-length reads; byte at a time; truncation and a single cut at every field boundary -1/0/+1 (quick) / at every offset (thorough)",
+		"auth":               "AuthFunc accepts exactly the accepted pair and records what it is asked",
+	}
+	p.Bounds = map[string]any{"ulen": c18LongULens, "plen": c18LongPLens, "accepted_users": len(accUsers), "presented_users": len(sentUsers), "presented_passes": len(sentPasses), "requests": len(reqs)}
+	neg := c18Neg{5, 1, []byte{2}}
+	noted := false
+	run := func(c *c18Case, desc, delivery string, over, trunc bool) {
+		p.Evaluations++
+		clause, detail, ref := c18Run(c)
+		kind, _, _ := strings.Cut(delivery, "@")
+		p.Class(ref.Stage, ref.Outcome, ref.Creds, over, kind, c.Zero, trunc, clause)
+		if c.askedOther != "" && clause == "" && !noted {
+			noted = true
+			p.Note("fidelity (not a violation, AuthFunc answered no): " + desc + "," + delivery + ": " + c.askedOther)
+		}
+		if clause == "" {
+			return
+		}
+		key := p.Name + "/" + clause
+		if x.reported[key] { // one (the simplest) case per clause and shard
+			return
+		}
+		x.reported[key] = true
+		cc := *c
+		x.sh.Violate(p.Name, fmt.Sprintf("%s/%s/%s,%s", p.Name, clause, desc, delivery), detail, &cc)
+	}
+	for _, ul := range c18LongULens {
+		for _, pl := range c18LongPLens {
+			users := c18LongUsers(ul, pl)
+			passes := map[string]string{"p*": c18Fill('p', pl), "y*": c18Fill('y', pl), "p*.y-last": c18Fill('p', pl-1) + "y"}
+			over := ul+1+pl > 256
+			for _, au := range accUsers {
+				for _, su := range sentUsers {
+					for _, sp := range sentPasses {
+						for _, rq := range reqs {
+							nb := neg.bytes()
+							s := append([]byte(nil), nb...)
+							s = append(s, c18UP{true, 1, users[su], passes[sp]}.bytes()...)
+							upEnd := len(s)
+							s = append(s, rq.r.bytes()...)
+							reqEnd := len(s)
+							s = append(s, c18Payload...)
+							s = append(make([]byte, 0, len(s)), s...) // cap == len
+							desc := fmt.Sprintf("ulen=%d,plen=%d,accepted=%s:p*,presented=%s:%s,%s", ul, pl, au, su, sp, rq.name)
+							mk := func(l int, cuts []int, zero bool) *c18Case {
+								return &c18Case{Stream: s[:l:l], Cuts: cuts, Zero: zero, Auth: true, AccU: users[au], AccP: passes["p*"]}
+							}
+							if p.Evaluations%997 == 3 {
+								p.Sample(map[string]any{"case": desc, "stream_len": len(s)})
+							}
+							if mine() {
+								run(mk(len(s), nil, false), desc, "whole", over, false)
+							}
+							msgs := []int{len(nb), upEnd, reqEnd}
+							every := make([]int, 0, len(s))
+							for i := 1; i < len(s); i++ {
+								every = append(every, i)
+							}
+							for _, z := range []bool{false, true} {
+								if mine() {
+									run(mk(len(s), msgs, z), desc, "per-message", over, false)
+								}
+								if mine() {
+									run(mk(len(s), every, z), desc, "byte-at-a-time", over, false)
+								}
+							}
+							// offsets: field boundaries of the user/pass message (VER, ULEN, UNAME, PLEN, PASSWD) -1/0/+1,
+							// and the offset at which 256 bytes of it have been delivered
+							var offs []int
+							if th {
+								offs = every
+							} else {
+								seen := map[int]bool{}
+								b0 := len(nb)
+								for _, b := range []int{b0, b0 + 1, b0 + 2, b0 + 2 + ul, b0 + 3 + ul, upEnd, b0 + 256, b0 + 2 + 256, reqEnd} {
+									for d := -1; d <= 1; d++ {
+										if o := b + d; o >= 1 && o < len(s) && !seen[o] {
+											seen[o] = true
+											offs = append(offs, o)
+										}
+									}
+								}
+							}
+							for _, o := range offs {
+								if mine() {
+									run(mk(o, nil, false), desc, fmt.Sprintf("truncated@%d", o), over, true)
+								}
+								if mine() {
+									run(mk(len(s), []int{o}, false), desc, fmt.Sprintf("cut@%d", o), over, false)
+								}
+							}
+						}
+					}
+				}
+			}
+		}
+	}
 }
 
 func c18SocksReplay(part string, raw json.RawMessage) (bool, bool, string) {
-	if part != "socks-truncations" && part != "socks-chunkings" && part != "socks-repeated-userpass" && part != "socks-eof-with-last-bytes" {
+	if part != "socks-truncations" && part != "socks-chunkings" && part != "socks-repeated-userpass" && part != "socks-eof-with-last-bytes" && part != "socks-long-credentials" {
 		return false, false, ""
 	}
 	var c c18Case
